@@ -17,6 +17,23 @@ from .arx import Box
 BS, OS = 8, 4
 
 
+def size_sets(P, fns, follow):
+    """(block size, output size) pairs to evaluate: the default (8, 4) plus, for every length constant c the code names
+    (2 <= c <= 16), output sizes c-1, c, c+1 -- a defect confined to sizes that are (not) a multiple of some width has to name
+    that width; constants beyond 16 are returned separately (the rule then decides only the sizes it evaluated)"""
+    from .. import shapeconst
+    cs = set()
+    for f in fns:
+        if f is not None:
+            cs |= shapeconst.usize_consts(P, f, follow=follow, depth=3)
+    big = sorted(c for c in cs if c > 16)
+    outs = {4}
+    for c in cs:
+        if 2 <= c <= 16:
+            outs |= {x for x in (c - 1, c, c + 1) if x >= 1}
+    return [(o + 4, o) for o in sorted(outs)][:8], big
+
+
 class Bad(Exception):
     pass
 
@@ -102,8 +119,16 @@ def check_hmac(ctx, P, rule="shape-eval"):
         return False
     bad = []
     n = 0
-    for kl in KEYLENS:
-        for split in SPLITS:
+    global BS, OS
+    sizes, big = size_sets(P, [new, f_in, f_raw, f_reset], r"^hmac::")
+    shapes = []
+    for bs_, os_ in sizes:
+        for kl in sorted({0, 1, bs_ - 1, bs_, bs_ + 1, 2 * bs_ + 1}):
+            for split in SPLITS:
+                shapes.append((bs_, os_, kl, split))
+    for bs_, os_, kl, split in shapes:
+        if True:
+            BS, OS = bs_, os_
             B = simd.TermBank()
             fam = {}
             key = [B.inp("k[%d]" % i, 8) for i in range(kl)]
@@ -136,7 +161,7 @@ def check_hmac(ctx, P, rule="shape-eval"):
                 bad.append((kl, split, str(e)))
                 continue
             except (simd.Unsupported, KeyError, IndexError, TypeError, AttributeError, ValueError) as e:
-                bad.append((kl, split, "not evaluable: %s: %s" % (type(e).__name__, str(e)[:100])))
+                bad.append(((bs_, os_), kl, split, "not evaluable: %s: %s" % (type(e).__name__, str(e)[:100])))
                 break
             n += 1
             w1 = spec_hmac(B, fam, key, m1)
@@ -147,15 +172,118 @@ def check_hmac(ctx, P, rule="shape-eval"):
                 bad.append((kl, split, "asking for the result a second time changes it"))
             elif r2 != w2:
                 bad.append((kl, split, "after reset the MAC of the next message is not HMAC(key, message)"))
-            if len(bad) > 3:
-                break
         if len(bad) > 3:
             break
-    ok = not bad and n == len(KEYLENS) * len(SPLITS)
-    ctx.check(ok, rule, "Hmac", "%d (key length, message split) shapes x {result, result again, reset + next message} with an uninterpreted digest (block %d, output %d): the MAC is H((K'^opad) || H((K'^ipad) || m))" % (n, BS, OS),
+    BS, OS = 8, 4
+    ok = not bad and n == len(shapes)
+    ctx.check(ok, rule, "Hmac", "%d (sizes, key length, message split) shapes x {result, result again, reset + next message} with an uninterpreted digest ((block, output) sizes %s): the MAC is H((K'^opad) || H((K'^ipad) || m))" % (n, sizes),
               "Hmac is not RFC 2104 over its digest: (key length, split, what) %s" % bad[:3], where=new.where(), key="%s:Hmac" % rule)
-    if ok:
+    if ok and not big:
         why = "Hmac is decided against RFC 2104 with an uninterpreted digest for %d (key length, split) shapes and three histories (shape-eval)" % n
         for pre in ("hmac-keys", "expand-key", "derive-key", "create-keys", "hmac:"):
+            ctx.subsume(pre, why)
+    return ok
+
+
+# ------------------------------------------------------------------------------------------------ PBKDF2 over an uninterpreted PRF
+class UFMac(UFDigest):
+    pass
+
+
+def mac_hooks(B):
+    def obj(m_, ref):
+        x = ref
+        while isinstance(x, tuple) and x and x[0] == "lref":
+            x = x[1][x[2]]
+        if isinstance(x, dict) and "_mac" in x:
+            return x["_mac"]
+        raise Bad("a Mac method is called on something that is not the MAC object")
+
+    def h_input(m_, f_, c_, a_):
+        d = obj(m_, a_[0])
+        if d.computed:
+            raise Bad("input into a MAC whose result was taken and which was not reset (Hmac asserts !finished)")
+        cont, base, n = m_.seq(a_[1])
+        d.tr += [m_.scalar_bits(cont[base + i], 8) for i in range(n)]
+        return None
+
+    def h_raw(m_, f_, c_, a_):
+        d = obj(m_, a_[0])
+        cont, base, n = m_.seq(a_[1])
+        if n < OS:
+            raise Bad("Mac::raw_result into a buffer of %d bytes (PRF output %d): the PRF output is truncated before it is fed back" % (n, OS))
+        hv = d.H(d.tr)
+        for i in range(OS):
+            cont[base + i] = hv[i]
+        d.computed = True
+        return None
+
+    def h_reset(m_, f_, c_, a_):
+        d = obj(m_, a_[0])
+        d.tr = []
+        d.computed = False
+        return None
+    return [(re.compile(r"^mac::Mac::input$"), h_input), (re.compile(r"^mac::Mac::raw_result$"), h_raw), (re.compile(r"^mac::Mac::reset$"), h_reset),
+            (re.compile(r"^mac::Mac::output_bytes$"), lambda m_, f_, c_, a_: OS)]
+
+
+def spec_pbkdf2(B, fam, salt, c, dklen):
+    prf = UFMac(B, fam)
+    out = []
+    i = 0
+    while len(out) < dklen:
+        i += 1
+        u = prf.H(list(salt) + [B.const((i >> s) & 0xff, 8) for s in (24, 16, 8, 0)])
+        t = list(u)
+        for _ in range(c - 1):
+            u = prf.H(list(u))
+            t = [B.xor(x, y) for x, y in zip(t, u)]
+        out += t
+    return out[:dklen]
+
+
+def check_pbkdf2(ctx, P, rule="shape-eval"):
+    fn = P.fn_opt("pbkdf2::pbkdf2")
+    if fn is None:
+        ctx.lost(rule, "pbkdf2", "pbkdf2::pbkdf2 not found")
+        return False
+    bad = []
+    n = 0
+    global BS, OS
+    sizes, big = size_sets(P, [fn], r"^pbkdf2::")
+    shapes = [(os_, sl, c, dk) for bs_, os_ in sizes for sl in (0, 1, 5) for c in (1, 2, 3, 5) for dk in range(0, 3 * os_ + 2)]
+    for os_, sl, c, dk in shapes:
+        OS = os_
+        B = simd.TermBank()
+        fam = {}
+        salt = [B.inp("salt[%d]" % i, 8) for i in range(sl)]
+        out0 = [B.inp("out0[%d]" % i, 8) for i in range(dk)]
+        out = {i: out0[i] for i in range(dk)}
+        mac = Box({"_mac": UFMac(B, fam)})
+        M = simd.Machine(P, B, 64, {}, maxsteps=400000)
+        M.hooks = mac_hooks(B)
+        try:
+            M.call_fn(fn, [mac.ref(), ("aslice", {i: salt[i] for i in range(sl)}, 0, sl), c, ("aslice", out, 0, dk)])
+        except Bad as e:
+            bad.append((OS, sl, c, dk, str(e)))
+            continue
+        except (simd.Unsupported, KeyError, IndexError, TypeError, AttributeError, ValueError) as e:
+            bad.append((sl, c, dk, "not evaluable: %s: %s" % (type(e).__name__, str(e)[:100])))
+            break
+        n += 1
+        want = spec_pbkdf2(B, fam, salt, c, dk)
+        got = [M.scalar_bits(out[i], 8) for i in range(dk)]
+        if got != want:
+            k = [i for i in range(dk) if got[i] != want[i]][0]
+            bad.append((OS, sl, c, dk, "derived key byte %d is not byte %d of T_1 || T_2 || ... (T_i = U_1 ^ ... ^ U_c, U_1 = PRF(salt || INT_BE32(i)))" % (k, k)))
+        if len(bad) > 3:
+            break
+    OS = 4
+    ok = not bad and n == len(shapes)
+    ctx.check(ok, rule, "pbkdf2", "%d (PRF size, salt length, iteration count, output length) shapes with an uninterpreted PRF of %s bytes: DK = T_1 || T_2 || ... truncated, T_i = XOR of the c chained PRF values" % (n, [o for b, o in sizes]),
+              "pbkdf2 is not RFC 8018 PBKDF2 over its PRF: (salt length, c, dkLen, what) %s" % bad[:3], where=fn.where(), key="%s:pbkdf2" % rule)
+    if ok and not big:
+        why = "pbkdf2 is decided against RFC 8018 with an uninterpreted PRF for %d shapes (shape-eval)" % n
+        for pre in ("pbkdf2-blocklen", "pbkdf2-u1", "pbkdf2-u2", "pbkdf2-uj", "pbkdf2-xor", "pbkdf2-order"):
             ctx.subsume(pre, why)
     return ok
